@@ -205,6 +205,46 @@ reg("C17", sim(
     f"all choice vectors with ≤ bound non-default entries over alphabet {FATES} on SPDP datagrams; the lease scenarios are single "
     f"executions per (lease, phase); distinct = distinct trace hashes", "DESIGN.md §4 C17", floor=(500, 100)))
 
+reg("C27", sim(
+    "fault_enumeration",
+    "A RELIABLE KEEP_LAST(depth 1,2) writer with max_blocking_time {0, 30 ms, 120 ms, infinite} writes bursts of 4-5 samples on 1-2 "
+    "instances to a reliable reader whose ACKNACKs are lost for {0, 80, 300} ms, with all fate vectors up to the bound on user "
+    "traffic on top. Oracles: a write returns Timeout no earlier than max_blocking_time and no later than max_blocking_time + 50 ms "
+    "(never with infinite blocking); every sample whose write returned Ok eventually reaches the reader (it was never discarded "
+    "unacknowledged); a sample whose write timed out is never delivered; every HEARTBEAT announces at most depth samples (single "
+    "instance) and the final history is exactly the newest depth successful writes; with no / only a best-effort reader writes never block.",
+    f"all choice vectors with ≤ bound (2 without outage, 1 with; +1 thorough) non-default entries over alphabet {FATES}; distinct = distinct trace hashes",
+    "DESIGN.md §4 C27", floor=(1000, 100)))
+
+reg("C29", sim(
+    "fault_enumeration",
+    "TRANSIENT_LOCAL reliable writer with lifespan {40, 300} ms writes samples with source timestamps {now, now - lifespan/2, "
+    "now - 2 lifespan, now - lifespan - 1 ms}; reader present from the start or joining {0, lifespan/2, lifespan + 60 ms} after the "
+    "writes; fate vectors up to the bound on user traffic so that first transmissions are lost and repairs / history happen after "
+    "expiry. Every sample the application sees must be younger than lifespan (+ 20 ms polling + 50 ms worker period) at the moment it is taken.",
+    f"all choice vectors with ≤ bound (2 / 1 for late joiners; +1 thorough) non-default entries over alphabet {FATES}; distinct = distinct trace hashes",
+    "DESIGN.md §4 C29", floor=(300, 50)))
+
+reg("C30", sim(
+    "model_checking",
+    "Writer and reader with a 100 ms deadline; write-time patterns: second write at {40,95,100,105,195,205,260} ms, a regular 80 ms "
+    "stream, two interleaved instances, and all gap sequences from {40,95,100,105,150,195,205,260} ms for 3 writes on one instance and "
+    "4 writes on two instances (TIME choice points, full enumeration). Every 25 ms the offered (status) and requested (listener) "
+    "deadline-missed totals must lie between the number of full periods that ended more than 53 ms ago and the number that can "
+    "have ended by now; totals never decrease; listener notifications carry 1,2,3,... (each increase signalled once).",
+    "all TIME choice vectors (gap alphabet of 8 values per write) + 9 fixed patterns; distinct = distinct observation traces",
+    "DESIGN.md §4 C30", floor=(300, 50)))
+
+reg("C31", sim(
+    "model_checking",
+    "Five scenarios drive the inputs of the worker's sleep computation negative or overdue (20 ms deadlines several periods overdue, "
+    "lifespans with source timestamps in the past, samples filtered / rejected at the reader, a blocked write plus an expiring lease) "
+    "with all combinations of write spacing {0,7,33,61,120 ms} and source-timestamp age {0,25,100 ms} per write (TIME choice points, "
+    "full enumeration). Oracle on every Timer::delay request made by the worker task: duration ≤ 50 ms. The same oracle is also "
+    "evaluated on every execution of the C27, C29 and C30 scenarios.",
+    "all TIME choice vectors (5 x 3^4 per scenario); distinct = distinct trace hashes",
+    "DESIGN.md §4 C31", floor=(300, 50)))
+
 API_RULE = ("every operation history up to the stated depth over the stated alphabet (one OP choice point per step, all "
             "alternatives at every step = full enumeration, no deviation bound); each history is one execution against a real "
             "participant and its worker; every return value is compared with a reference contract model; distinct = distinct "
